@@ -8,7 +8,7 @@ TB = "Trusted base: go/types + go/ssa (x/tools v0.29.0) represent the source fai
 
 P = {
  "C01": dict(tech="path-sensitive provenance analysis on go/ssa (pathwalk) + who-may-call scans",
-   text="Decides, for every path of ValidateEncodedResponse with validation enabled, where each decoded Response/Assertion came from: the element returned by a successful dsig Validate, or (unsigned root) a header-only decode with both assertion lists reset and appends only of freshly allocated, individually verified direct children; only ErrMissingSignature at the root continues; parseResponse screens the very bytes it parsed into a document created for that attempt; both traversal handlers (Assertion, EncryptedAssertion) demand a direct child of the processed root; the validation context is built per call over sp.IDPCertificateStore / sp.Clock; the header is decoded before any tree mutation. Holds for all inputs because it is a property of every control-flow path, not of sampled documents. No traversal handler ends the walk early (etreeutils.ErrTraversalHalted) on an accepting path.",
+   text="Decides, for every path of ValidateEncodedResponse with validation enabled, where each decoded Response/Assertion came from: the element returned by a successful dsig Validate, or (unsigned root) a header-only decode with both assertion lists reset and appends only of freshly allocated, individually verified direct children; only ErrMissingSignature at the root continues; parseResponse screens the very bytes it parsed into a document created for that attempt; both traversal handlers (Assertion, EncryptedAssertion) demand a direct child of the processed root; the validation context is built per call over sp.IDPCertificateStore / sp.Clock; the header is decoded before any tree mutation. Holds for all inputs because it is a property of every control-flow path, not of sampled documents. No traversal handler ends the walk early (etreeutils.ErrTraversalHalted) on an accepting path. Every element decryptAssertions adds to a tree is Root(parseResponse(DecryptBytes(the EncryptedAssertion decoded from the handler's element))): no other source of plaintext.",
    note="Not decided: correctness of dsig.Validate itself (contract, audited by shape in the thorough tier), parser differentials beyond the round-trip screen, ID-collision handling inside goxmldsig. " + TB, ref="DESIGN.md §3 C01"),
  "C02": dict(tech="who-may-construct / receiver scans + path-sensitive error-discipline analysis",
    text="Every validation context is built in validationContext() over sp.IDPCertificateStore with ctx.Clock = sp.Clock, every Validate receiver comes from it, and at all four verify sites the only non-fatal error is ErrMissingSignature at a root site, whose continuation leaves the trust flag constant false. The trust store is read-only for the library (no store / append / mutating call reaches sp.IDPCertificateStore or what it hands out).",
@@ -20,7 +20,7 @@ P = {
    text="The five trust indicators are written only by the validators; on every accepting path the returned flag is a compile-time constant that is true exactly when the object was decoded from the element returned by the successful check of the parsed root with validation on; xml:\"-\" keeps input from setting them; the summary flag mirrors the Response flag.",
    note="Field-for-field equality with the signed element follows from C01 provenance + the Validate contract, not re-proved here. " + TB, ref="DESIGN.md §3 C04"),
  "C05": dict(tech="comparison truth tables over the 3 orderings of (clock, bound), extracted from path facts",
-   text="For each time decision the guard is evaluated over now<b, now=b, now>b on all paths: expiry rejects on = and >, InvalidTime from NotBefore on < only and from NotOnOrAfter on = and >; operands are sp.Clock.Now() and time.Parse(RFC3339, field) unmodified; missing/unparsable bounds are typed errors; no wall-clock call exists in library scope (positive control). Every verified assertion is decoded into a fresh object, so each assertion's bounds are its own.",
+   text="For each time decision the guard is evaluated over now<b, now=b, now>b on all paths: expiry rejects on = and >, InvalidTime from NotBefore on < only and from NotOnOrAfter on = and >; operands are sp.Clock.Now() and time.Parse(RFC3339, field) unmodified; missing/unparsable bounds are typed errors; no wall-clock call exists in library scope (positive control). Every verified assertion is decoded into a fresh object, so each assertion's bounds are its own. Every accepting path of ValidateEncodedResponse ends with sp.Validate(returned object) == nil on this call (no acceptance from an earlier call's verdict).",
    note="Not decided: time.Parse's own handling of offsets and fractions (std contract). " + TB, ref="DESIGN.md §3 C05"),
  "C06": dict(tech="loop-to-quantifier extraction on SSA paths; exact-comparison and accumulate-loop rules",
    text="NotInAudience is stored exactly on generic outer iterations whose inner loop over that restriction's Audiences is exhausted without an exact == match, never with zero restrictions; OneTimeUse and ProxyRestriction mirror presence, Count and the audience list in order. Every verified assertion is decoded into a fresh object; no allocation while computing the warnings is sized by a signed value. A store to NotInAudience inside the loop over the restrictions stores true or the loop-carried value (restrictions are conjunctive: a later or matching restriction never clears the warning).",
@@ -35,7 +35,7 @@ P = {
    text="Both logout validators carry Version, Destination-vs-SLO-URL, Issuer and (responses) Success checks with typed errors on every accepting path; fatal verification errors; decode from the verified root (or raw root on the missing-signature continuation) with flag <=> verified root and false under skip; root structs have distinct tagged XMLNames; the two validators agree path class by path class.",
    note="As C01/C02. " + TB, ref="DESIGN.md §3 C10"),
  "C11": dict(tech="table agreement (advertised vs handled constants), key-source decision tables over all valid configurations, expression-shape and rejection-whitelist rules",
-   text="STRUCTURAL PART ONLY: every advertised / exported algorithm constant has a decrypting case; the key that decrypts and the certificate reported/published pick the same source in all 12 valid field/setter configurations; nonce/IV split and padding removal have the required shape; no rejection outside the safety whitelist on the symmetric layer; the symmetric key is the whole RSA plaintext of base64(CipherValue) obtained with the primitive the transport identifier names; every advertised algorithm's cipher family matches its identifier.",
+   text="STRUCTURAL PART ONLY: every advertised / exported algorithm constant has a decrypting case; the key that decrypts and the certificate reported/published pick the same source in all 12 valid field/setter configurations; nonce/IV split and padding removal have the required shape; no rejection outside the safety whitelist on the symmetric layer; the symmetric key is the whole RSA plaintext of base64(CipherValue) obtained with the primitive the transport identifier names; every advertised algorithm's cipher family matches its identifier. decryptAssertions runs unconditionally on every accepting validating path (shared with C07-R2).",
    note="Explicitly NOT decided: byte-exact round trip for every plaintext length and algorithm pairing, OAEP/MGF semantics (cryptographic run-time behaviour). The checked clauses are necessary conditions: breaking one breaks the round trip for some input/configuration. " + TB, ref="DESIGN.md §3 C11"),
  "C12": dict(tech="who-may-call scan + value-flow / bounds analysis of maybeDeflate on SSA paths",
    text="The only decompressor constructor in the library is in maybeDeflate, its reader flows only into io.LimitReader(r, max+1) (max = parameter, 5 MiB when 0), only the limited reader is read, the second decode is reached only with len(out) <= max proven from path facts, both attempts call the same decoder, and every entry point routes through it with the configured / default limit. DecryptBytes returns exactly the opened / unpadded plaintext, so a compressed plaintext reaches the inflater byte for byte.",
@@ -65,7 +65,7 @@ P = {
    text="Every ID attribute is a constant NCName-start prefix + String() of a uuid.NewV4() called in the same builder activation, held in attribute storage the element owns; NewV4 fills all 16 bytes of a fresh array from crypto/rand with the error fatal; version/variant transforms are correct for all 256 byte values and no other byte is overwritten; String() is the 8-4-4-4-12 lower-case hex layout.",
    note="Not decided: non-repetition (a probabilistic consequence of 122 random bits, not a code shape). " + TB, ref="DESIGN.md §3 C18"),
  "C20": dict(tech="sibling struct-tag comparison, decode-target type comparison, value-flow rules on the pre-decoders",
-   text="STRUCTURAL PART ONLY: every field of UnverifiedBaseResponse has the identical xml tag and type in Response; the logout pre-decoder and full validation fill the same type; both pre-decoders decode the base64-decoded input via maybeDeflate with the 5 MiB default into an object allocated inside each attempt and return the successful attempt's object; no library code writes a header field (or a field of the Issuer object) after decoding; on the unsigned-root path the header is decoded before the tree is modified; the pre-decoders' decoder input is the same normal form (etree re-serialisation) the validators decode — violated on the pinned tree, recorded as known finding F5 (two KNOWN-FINDING lines, exit 0). On every accepting path of the validating entry points the returned object is the product of exactly one xml.Unmarshal whose error is nil on the path.",
+   text="STRUCTURAL PART ONLY: every field of UnverifiedBaseResponse has the identical xml tag and type in Response; the logout pre-decoder and full validation fill the same type; both pre-decoders decode the base64-decoded input via maybeDeflate with the 5 MiB default into an object allocated inside each attempt and return the successful attempt's object; no library code writes a header field (or a field of the Issuer object) after decoding; on the unsigned-root path the header is decoded before the tree is modified; the pre-decoders' decoder input is the same normal form (etree re-serialisation) the validators decode — violated on the pinned tree, recorded as known finding F5 (two KNOWN-FINDING lines, exit 0). On every accepting path of the validating entry points the returned object is the product of exactly one xml.Unmarshal whose error is nil on the path. A pre-decoder rejects only with the base64, inflate, size-limit or XML-decoder error that validation shares (rejection parity).",
    note="Explicitly NOT decided: that encoding/xml on the pre-decoder's input and on the re-serialised (canonicalised) verified tree select the same attribute / Issuer for documents with duplicates or shadowing (parser behaviour on adversarial inputs; attribute order under canonicalisation). Three concrete disagreements caused by decoding raw octets are known (F5). " + TB, ref="DESIGN.md §3 C20"),
 }
 
